@@ -16,22 +16,27 @@
 
   What is proved instead (`optimize_sound_partial`, `optimize_accepts_partial`,
   `optimize_strict_refines`): the same statement for every run of the mirrored code during
-  which none of six decidable situations occurs (strict mode raises a `FLAG:*` for them):
+  which none of five decidable situations occurs (strict mode raises a `FLAG:*` for them):
     pair-head / sub-args-pair-head : a form `((X) . args)` reaches children_optimizer / sub_args
     sub-args-nil, sub-args-neg     : sub_args meets a path atom that number_from_u8 reads as 0 / < 0
     signed-noncanonical-path       : path_optimizer meets a non-minimal atom with the top bit set
-    get-u32-path                   : path_optimizer meets a minimal top-bit atom of ≥ 4 bytes
     sub-args-long-path             : sub_args meets a path atom of ≥ 1024 bytes (the recursive
                                      path_from_args overflows the stack; no kernel witness — a
                                      4097-byte atom — the check replays it on the real code)
   Each situation has a kernel-checked counter-witness below; each is replayed on the real
-  optimiser by tools/props/c04.py.  Termination of the loop is not addressed (fuel-bounded model).
+  optimiser by tools/props/c04.py.
+  A sixth situation of the code as found (get-u32-path: a minimal top-bit atom of ≥ 4 bytes in
+  path_optimizer, `get_u32` little-endian) was repaired in /repo c2e6c4f; it is now a PROVED
+  case (`bigint_from_bytes_unsigned`, `as_path_new_canonical`, `path_atom_ok_canonical`,
+  `path_optimizer_sound_canonical`), and its former counter-witnesses are kept as the
+  `*_repaired_get_u32` theorems on the same inputs.  Termination of the loop is not addressed (fuel-bounded model).
   The memo of optimize_sexp_ is absent from `optimizeSexp`; `memo_transparent` shows that the
   memoised function (Opt/ClassicMemo.lean) returns nothing else.
 -/
 import ChialispModel.Opt.Classic
 import ChialispModel.Proofs.OptRefine
 import ChialispModel.Proofs.OptMemo
+import ChialispModel.Proofs.NodePathSigned
 
 namespace C04
 open Opt Clvm
@@ -55,26 +60,44 @@ theorem as_path_new_nonneg {b : Bytes} (h : 0 ≤ Bytes.toInt b) :
     Bytes.toNatBE (NodePath.asPath (NodePath.new (Bytes.toInt b))) = Bytes.toNatBE b := by
   rw [NodePath.new_toInt_nonneg h]; exact BytesAlg.toNatBE_ofNatBE _
 
-/-- … and of every minimal (canonical) atom of fewer than four bytes, top bit set or not. -/
-theorem as_path_new_canonical_short {b : Bytes} (hc : Bytes.canonical b = true) (hl : b.length < 4) :
-    Bytes.toNatBE (NodePath.asPath (NodePath.new (Bytes.toInt b))) = Bytes.toNatBE b := by
-  rw [NodePath.new_canonical_short hc hl]; exact BytesAlg.toNatBE_ofNatBE _
+/-- **`bigint_from_bytes(b, None)` is the unsigned big-endian reading of `b`, for EVERY `b`**
+    (both loops of casts.rs, 4-byte groups through `get_u32`, any length).  False for the code
+    as found (little-endian `get_u32`, from four bytes up). -/
+theorem bigint_from_bytes_unsigned (b : Bytes) : NodePath.bigintFromBytes b = Bytes.toNatBE b :=
+  NodePath.bigintFromBytes_eq b
 
-/-- FULL STATEMENT `∀ b, toNatBE (asPath (new (toInt b))) = toNatBE b` is false:
-    `get_u32` reads the 4-byte group little-endian (`0x80000000 ↦ 128`) … -/
-theorem as_path_new_counterexample_get_u32 :
+example : NodePath.bigintFromBytes [0x80, 0, 0, 0, 0x12, 0x34, 0x56, 0x78, 0x9a] = 0x80000000123456789a := by decide
+
+/-- hence `NodePath::new` of a NEGATIVE index is the unsigned reading of its minimal
+    two's-complement bytes, whatever their number … -/
+theorem node_path_new_negative {i : Int} (h : i < 0) :
+    NodePath.new i = Bytes.toNatBE (Bytes.ofIntClvm i) := NodePath.new_neg h
+
+example : NodePath.new (-(2 : Int) ^ 71) = 2 ^ 71 := by decide
+
+/-- … and `as_path ∘ new ∘ number_from_u8` keeps the path of every minimal (canonical) atom of
+    ANY length, top bit set or not: the optimiser's path arithmetic agrees with clvmr's unsigned
+    traversal on all canonical atoms. -/
+theorem as_path_new_canonical {b : Bytes} (hc : Bytes.canonical b = true) :
+    Bytes.toNatBE (NodePath.asPath (NodePath.new (Bytes.toInt b))) = Bytes.toNatBE b := by
+  rw [NodePath.new_canonical hc]; exact BytesAlg.toNatBE_ofNatBE _
+
+/-- the former counter-witness of finding C04-get-u32-path (`0x80000000 ↦ 128` with the
+    little-endian `get_u32`), now sound: same atom, index 2^31. -/
+theorem as_path_new_repaired_get_u32 :
     Bytes.canonical [0x80, 0, 0, 0] = true ∧
-    NodePath.new (Bytes.toInt [0x80, 0, 0, 0]) = 128 ∧ Bytes.toNatBE [0x80, 0, 0, 0] = 2147483648 := by
+    NodePath.new (Bytes.toInt [0x80, 0, 0, 0]) = 2147483648 ∧ Bytes.toNatBE [0x80, 0, 0, 0] = 2147483648 := by
   decide
 
-/-- … and a sign-extended (non-minimal) atom is re-encoded minimally first (`0xff80 ↦ 128`, `0xffff ↦ 255`). -/
+/-- FULL STATEMENT `∀ b, toNatBE (asPath (new (toInt b))) = toNatBE b` is still false:
+    a sign-extended (non-minimal) atom is re-encoded minimally first (`0xff80 ↦ 128`, `0xffff ↦ 255`). -/
 theorem as_path_new_counterexample_signed :
     NodePath.new (Bytes.toInt [0xff, 0x80]) = 128 ∧ Bytes.toNatBE [0xff, 0x80] = 65408 ∧
     NodePath.new (Bytes.toInt [0xff, 0xff]) = 255 ∧ Bytes.toNatBE [0xff, 0xff] = 65535 := by
   decide
 
 example : (0 : Int) ≤ Bytes.toInt [0, 0x80, 0x01] := by decide
-example : Bytes.canonical [0x80, 0x01] = true ∧ [0x80, 0x01].length < 4 := by decide
+example : Bytes.canonical [0x80, 0x01, 0x02, 0x03, 0x04, 0x05] = true := by decide
 
 -- =========================================================================================
 -- pattern matching, constants
@@ -184,10 +207,51 @@ theorem path_optimizer_sound_partial (co : CoreOps ops) {r r' e v : Val}
 theorem path_atom_ok_nonneg {b : Bytes} (h : 0 ≤ Bytes.toInt b) : pathAtomOk b = true := by
   simp [pathAtomOk, NodePath.new_toInt_nonneg h]
 
-/-- … and for every canonical atom below four bytes (top bit set included: `0x80`, `0xff7f`, …). -/
-theorem path_atom_ok_canonical_short {b : Bytes} (hc : Bytes.canonical b = true) (hl : b.length < 4) :
-    pathAtomOk b = true := by
-  simp [pathAtomOk, NodePath.new_canonical_short hc hl]
+/-- … and for every canonical atom of every width (top bit set included: `0x80`, `0xff7f`,
+    `0x80000000`, …) — the class that was finding C04-get-u32-path from four bytes up. -/
+theorem path_atom_ok_canonical {b : Bytes} (hc : Bytes.canonical b = true) : pathAtomOk b = true := by
+  simp [pathAtomOk, NodePath.new_canonical hc]
+
+/-- so the hypothesis fails (and strict mode flags) ONLY on atoms that read negative and are not
+    minimally encoded — the remaining finding C04-signed-noncanonical-path. -/
+theorem path_atom_not_ok_only_signed_noncanonical {b : Bytes} (h : pathAtomOk b = false) :
+    Bytes.toInt b < 0 ∧ Bytes.canonical b = false := by
+  constructor
+  · apply Classical.byContradiction
+    intro hn
+    rw [path_atom_ok_nonneg (by omega)] at h
+    cases h
+  · cases hc : Bytes.canonical b with
+    | false => rfl
+    | true => rw [path_atom_ok_canonical hc] at h; cases h
+
+example : pathAtomOk [0xff, 0xff] = false := by decide
+
+/-- **exactly which atoms `path_optimizer` gets wrong** (sharp form of the remaining finding
+    C04-signed-noncanonical-path, all widths): the index is the path clvmr traverses iff the
+    first byte is below 0x80, or the atom is a single byte, or the first NINE bits are not all
+    ones (`n < 256^L − 2^(8L−9)`) — i.e. iff the atom is not a sign-extended encoding. -/
+theorem path_atom_ok_iff (x : UInt8) (r : Bytes) :
+    pathAtomOk (x :: r) = true ↔
+      (x.toNat < 128 ∨ r = [] ∨ Bytes.toNatBE (x :: r) + 2 ^ (8 * r.length - 1) < 256 ^ (r.length + 1)) := by
+  by_cases hx : x.toNat < 128
+  · simp [hx, path_atom_ok_nonneg (NodePath.toInt_nonneg_of_small x r hx)]
+  · have := NodePath.new_toInt_topbit_eq_iff x r (by omega)
+    simp only [pathAtomOk, beq_iff_eq, hx, false_or]
+    exact this
+
+example : pathAtomOk [0xff, 0x7f, 0xff] = true ∧ pathAtomOk [0xff, 0x80, 0x00] = false ∧ pathAtomOk [0xff] = true := by
+  decide
+
+/-- **`path_optimizer` is sound on canonical path atoms of every width** (no other hypothesis):
+    if the atom of `(f b)` / `(r b)` is minimally encoded, the rewritten path means the same. -/
+theorem path_optimizer_sound_canonical (co : CoreOps ops) {r r' e v : Val}
+    (hc : ∀ b, r = mk1 [5] (.atom b) ∨ r = mk1 [6] (.atom b) → Bytes.canonical b = true)
+    (hr : pathOptimizer false r = .ok r') (h : Evaluates ops r e v) : Evaluates ops r' e v :=
+  path_optimizer_sound_partial co (fun b hb => path_atom_ok_canonical (hc b hb)) hr h
+
+example : Bytes.canonical [0x80, 0, 0, 0] = true ∧
+    pathOptimizer false (mk1 [5] (.atom [0x80, 0, 0, 0])) = .ok (.atom [0x01, 0, 0, 0, 0]) := by decide
 
 /-- strict mode never rewrites where the hypothesis fails. -/
 theorem path_optimizer_sound_strict (co : CoreOps ops) {r r' e v : Val}
@@ -200,9 +264,11 @@ theorem path_optimizer_counterexample_signed :
     pathOptimizer false (mk1 [5] (.atom [0xff, 0xff])) = .ok (.atom [0x01, 0x7f]) ∧
     Path.compose 65535 2 = 98303 ∧ Bytes.toNatBE [0x01, 0x7f] = 383 := by decide
 
-/-- `(f 0x80000000)` optimises to path 256 instead of 2^32. -/
-theorem path_optimizer_counterexample_get_u32 :
-    pathOptimizer false (mk1 [5] (.atom [0x80, 0, 0, 0])) = .ok (.atom [0x01, 0x00]) := by decide
+/-- `(f 0x80000000)` optimises to path 2^32 = 2^31·2 (it was 256 with the little-endian
+    `get_u32`: the former counter-witness of finding C04-get-u32-path). -/
+theorem path_optimizer_repaired_get_u32 :
+    pathOptimizer false (mk1 [5] (.atom [0x80, 0, 0, 0])) = .ok (.atom [0x01, 0, 0, 0, 0]) ∧
+    Path.compose 2147483648 2 = 4294967296 ∧ Bytes.toNatBE [0x01, 0, 0, 0, 0] = 4294967296 := by decide
 
 -- =========================================================================================
 -- the whole optimiser
@@ -313,13 +379,14 @@ theorem optimize_counterexample_signed_path :
     optimizeSexp Ops.chiaOps true 6 6 (L [A [5], A [0xff, 0xff]]) = .error (.fail "FLAG:signed-noncanonical-path") := by
   decide
 
-/-- counter-witness 6 (`get_u32`): `(f 0x80000000)` selects a node 32 levels down, the optimised
-    path `0x0100` = 256 one 8 levels down. -/
-theorem optimize_counterexample_get_u32 :
+/-- former counter-witness 6 (`get_u32`, repaired in /repo c2e6c4f): `(f 0x80000000)` selects a
+    node 32 levels down, and so does the optimised path `0x0100000000` = 2^32 (it was `0x0100` =
+    256, 8 levels down); strict mode no longer flags it. -/
+theorem optimize_repaired_get_u32 :
     evalC Ops.chiaOps 6 (L [A [5], A [0x80, 0, 0, 0]]) (deepL 32 (A [9])) = .ok (A [9]) ∧
-    optimizeSexp Ops.chiaOps false 6 6 (L [A [5], A [0x80, 0, 0, 0]]) = .ok (A [0x01, 0x00]) ∧
-    evalC Ops.chiaOps 6 (A [0x01, 0x00]) (deepL 32 (A [9])) = .ok (deepL 24 (A [9])) ∧
-    optimizeSexp Ops.chiaOps true 6 6 (L [A [5], A [0x80, 0, 0, 0]]) = .error (.fail "FLAG:get-u32-path") := by
+    optimizeSexp Ops.chiaOps false 6 6 (L [A [5], A [0x80, 0, 0, 0]]) = .ok (A [0x01, 0, 0, 0, 0]) ∧
+    evalC Ops.chiaOps 6 (A [0x01, 0, 0, 0, 0]) (deepL 32 (A [9])) = .ok (A [9]) ∧
+    optimizeSexp Ops.chiaOps true 6 6 (L [A [5], A [0x80, 0, 0, 0]]) = .ok (A [0x01, 0, 0, 0, 0]) := by
   decide
 
 end C04
